@@ -458,7 +458,10 @@ class Gen:
         k = r.choice(self.profile['num'])
         self.hit('num:' + k)
         if k == 'abs':
-            return ('abs', self.num(m, xs, depth - 1))
+            a = self.num(m, xs, depth - 1)
+            if a[0] == 'n':
+                a = self.lin(m, xs, 1)       # abs(<negative constant>) is mis-flattened to variable 0 (conversion defect, not C07)
+            return ('abs', a)
         if k in ('min', 'max'):
             return (k, [self.num(m, xs, depth - 1) for _ in range(r.rint(2, 3))])
         if k == 'mul':
@@ -783,9 +786,16 @@ def nl_verdict_margin(m, xo, feastol, inttol):
                 big.append(w)
             elif viol > 0:
                 small = True
+        # a false logical constraint counts as robustly violated only at grid points (all comparisons then differ by
+        # at least 1/64 >> tolerance); off-grid points (boundary families) may be within tolerance of a comparison
+        # that the converter turned into a bound or an algebraic row
+        ongrid = all((F(v) * GRID).denominator == 1 for v in xo) and feastol <= F(1, 256)
         for i, l in enumerate(m.lcons):
             if not nlgen.ev(l['expr'], xo):
-                big.append('logical %d' % i)
+                if ongrid:
+                    big.append('logical %d' % i)
+                else:
+                    small = True
     except nlgen.Undefined:
         return 'undetermined', 'undefined expression'
     ib = []
@@ -794,12 +804,14 @@ def nl_verdict_margin(m, xo, feastol, inttol):
             ib.append(j)
         elif d > 0:
             small = True
+    if ib:
+        # a fractional integer variable: the flat model (integer-rounded right-hand sides etc.) need not agree with the
+        # NL model at such a point; what the property requires in any case is a report for the integrality violation
+        return 'int-violated', ib
     if big:
         return 'violated', big
     if small:
         return 'undetermined', 'within margin'
-    if ib:
-        return 'int-violated', ib
     return 'feasible', None
 
 
@@ -1112,14 +1124,18 @@ def diagnose_unreported(c):
         return None
     x = [fr(t) for t in f.chk['x']]
     hits = []
+    kinds = set()
     for it in f.items:
-        if it['unused'] or it['con'][0] != 'cond':
+        if it['unused'] or it['con'][0] not in ('cond', 'adef'):
             continue
         r = it['con'][1]
         v = f.vars[r]
         if x[r] < v['lb'] or x[r] > v['ub']:
             hits.append(f.vars[r]['name'])
-    return hits or None
+            kinds.add(it['con'][0])
+    if not hits:
+        return None
+    return ('cond' if 'cond' in kinds else 'lfc'), hits
 
 
 def item_vars(con):
@@ -1429,11 +1445,14 @@ def finish(ck, proof_ok, failing, stats, hist, corr_bad, oracle_bad, distinct):
             sig = 'fail-code:%s' % ('missing-150' if orc['expect'] else 'spurious-150')
             what = 'sol:chk:fail: %s' % orc['detail']
         elif orc['kind'] == 'violated' and orc['expect'] and diagnose_unreported(c):
-            sig = 'ideal-pass:cond-result-bounds:unreported'
-            what = ('violated model (%s) not reported by the idealistic pass (mode %d): the recomputed result(s) %s of '
-                    'ConditionalConstraint(s) lie outside their bounds, but ConditionalConstraint::ComputeViolation has no '
-                    'recomp_vals() branch and auxiliary bounds are not tested on recomputed values'
-                    % (str(orc['detail'])[:120], c['flat'].chk['mode'], diagnose_unreported(c)))
+            dk, dh = diagnose_unreported(c)
+            sig = 'ideal-pass:%s-result-bounds:unreported' % dk
+            what = ('violated model (%s) not reported by the idealistic pass (mode %d): the recomputed result(s) %s of %s '
+                    'lie outside their bounds, but %s and auxiliary bounds are not tested on recomputed values'
+                    % (str(orc['detail'])[:120], c['flat'].chk['mode'], dh,
+                       'ConditionalConstraint(s)' if dk == 'cond' else 'Linear/QuadraticFunctionalConstraint(s)',
+                       'ConditionalConstraint::ComputeViolation has no recomp_vals() branch' if dk == 'cond'
+                       else 'these constraint types have no ComputeViolation at all (BasicConstraint: {0,0})'))
         elif orc['kind'] == 'feasible' and not orc['expect'] and ctx_none_items(c['flat']):
             sig = 'spurious-report:ctx-none'
             what = ('the point satisfies the original model exactly, yet the check reports:\n%s\nfunctional constraint(s) %s have '
